@@ -23,7 +23,7 @@ import impl
 from common import driver_batch
 
 ID = 'C10'
-EXTRA_MODULES = ['Mistletoe.Proofs.Reflow', 'propsdriver']
+EXTRA_MODULES = ['Mistletoe.Proofs.Reflow', 'Mistletoe.Proofs.ReflowQuote', 'propsdriver']
 RULE = ('fragment lists (word-wrappable text with all kinds of whitespace, glued fragments, hard breaks) x L in '
         '{None, 0, -3..120}; generated prose documents (plain words that cannot be mistaken for block markers; emphasis, '
         'strong, code spans with inner spaces, links with titles, images, hard breaks, link definitions, headings, code '
@@ -33,8 +33,8 @@ TRUSTED = ['container prefixes of output lines are recognised by a regular expre
 ASSUMPTIONS = ['prose words cannot be mistaken for block markers at the start of a line (the complementary class is the '
                'recorded finding named by the property)']
 PARTIAL = ['meaning preservation, idempotence and the line bound on PARSED documents are proved for the plain-word prose fragment '
-           '(paragraphs of words without inline markup, not inside containers; Props/C10_Reflow.lean); paragraphs inside quotes '
-           'and lists (prefix budgets are proved separately: C10_budget, C10_wrapping_stays_on), hard breaks, inline markup, and '
+           '(paragraphs of words without inline markup, at top level and inside any number of block quotes; Props/C10_Reflow.lean); '
+           'paragraphs inside list items (their prefix budget is proved separately: C10_budget), hard breaks, inline markup, and '
            'the non-rebreaking of code/HTML/table/ATX blocks are explored on the implementation']
 
 WORDS = ['alpha', 'beta', 'gamma', 'delta', 'words', 'wrap', 'here', 'is', 'a', 'an', 'of', 'line', 'text', 'longerword',
@@ -89,7 +89,10 @@ def block(rng, depth):
                 out.append('')
         while out and out[-1] == '':
             out.pop()
-        return out
+        # 0-3 spaces before the list markers (the whole list moves with them); only for top-level lists: glued behind an outer
+        # marker the extra spaces would change the outer item's content offset and turn its other blocks into indented code
+        ind = ' ' * (rng.choice([0, 0, 0, 1, 2, 3]) if depth == 0 else 0)
+        return [(ind + l) if l else '' for l in out]
     if r < 0.36:
         return ['#' * rng.randint(1, 4) + ' ' + ' '.join(rng.choice(WORDS) for _ in range(rng.randint(1, 9)))]
     if r < 0.40:
@@ -245,7 +248,7 @@ def units(ctx):
     from mistletoe import Document
     seen = []
     for L in [None, 0, 1, 2, 3, 4, 5, 10, 40, 120]:
-        for text, k in (('> a b\n', 2), ('- a b\n', 2), ('10. a b\n', 4), ('-    a b\n', 5)):
+        for text, k in (('> a b\n', 2), ('- a b\n', 2), ('10. a b\n', 4), ('-    a b\n', 5), ('  - a b\n', 4), ('   7. a b\n', 6)):
             try:
                 with MR(max_line_length=L) as r:
                     doc = Document(text)
@@ -281,7 +284,8 @@ def theorem_unit(ctx):
         vocab = TH_WORDS if rng.random() < 0.25 else TH_WORDS[:len(WORDS) + 14]      # a quarter of the documents may contain words outside the fragment
         paras = [[[rng.choice(vocab) for _ in range(rng.randint(1, 7))] for _ in range(rng.randint(1, 4))]
                  for _ in range(rng.randint(1, 3))]
-        reqs.append({'op': 'c10.reflow', 'paras': paras, 'L': rng.choice([1, 2, 3, 5, 8, 10] + list(range(1, 81)))})
+        reqs.append({'op': 'c10.reflow', 'paras': paras, 'L': rng.choice([1, 2, 3, 5, 8, 10] + list(range(1, 81))),
+                     'depth': rng.choice([0, 0, 1, 2, 3])})
     res = common.driver_batch(reqs, binary=common.PROPS_DRIVER)
     n_ok = 0
     for i, (q, r) in enumerate(zip(reqs, res)):
@@ -298,8 +302,8 @@ def theorem_unit(ctx):
         except Exception as e:
             real = {'raises': type(e).__name__}
         ctx.compare('c10.theorem', {'text': r['text'], 'L': L, 'normalize_whitespace': nw},
-                    {'md': r['expected'], 'idempotent': True, 'same_html_up_to_breaks': True}, real, kind='L<=10' if L <= 10 else 'L>10')
-    ctx.notes.append('of %d generated plain-word documents %d satisfy the hypothesis of C10_prose_reflow_markdown_partial' % (len(reqs), n_ok))
+                    {'md': r['expected'], 'idempotent': True, 'same_html_up_to_breaks': True}, real, kind=('L<=10' if L <= 10 else 'L>10') + ',depth%d' % q['depth'])
+    ctx.notes.append('of %d generated plain-word documents %d satisfy the hypothesis of C10_prose_reflow_markdown_partial / C10_quoted_reflow_partial' % (len(reqs), n_ok))
 
 
 def _docs(ctx):
